@@ -132,6 +132,21 @@ CHECKS["C14"] = dict(engine="version", ref="DESIGN.md 5/C14",
     "UndeclaredDependencyError exactly when an executed function calls outside its static closure.",
     technique="TLA+ reachability definitions evaluated by TLC on logged reference graphs (trace validation) + enforcement calls")
 
+CHECKS["C04"] = dict(engine="argkey", ref="DESIGN.md 5/C04",
+    text=("ArgKey.tla defines the documented key: effective kwargs (partial kwargs, partial args, positional args, kwargs, context args) "
+          "and Canon, the canonical JSON TEXT of the documented encoding with keys ordered by code point; for every generated case TLC "
+          "computes that text and checks presentation invariance and injectivity on the definition; the harness applies SHA-256 and "
+          "compares with arg_hash of the real call presentation; equivalent presentations must hit one memoized result, type- or "
+          "context-different variants must miss, and the body must receive the bound values (ArgKeyMon via TraceArgKey)."),
+    technique="TLA+ reference definition of the canonical key text evaluated by TLC per case (+ laws) compared with the implementation's hash; TLC trace validation of hit/miss behaviour")
+CHECKS["C11"] = dict(engine="codec", ref="DESIGN.md 5/C11",
+    text=("Codec.tla defines Wire(m), the wire document of an abstract memento (fixed field names, typed {type,value} arguments, Z suffix, "
+          "key#version content key) and checks on the definition that the typed encoding determines the argument; for every generated "
+          "memento TLC emits the expected document; the real memento is encoded as the metadata source does, parsed with a strict JSON "
+          "parser, compared structurally with TLC's document, decoded and compared field by field, and its argument hash recomputed; "
+          "CodecMon (TraceCodec) decides."),
+    technique="TLA+ reference definition of the wire document evaluated by TLC per memento, compared with the implementation's output; TLC trace validation of round-trip facts")
+
 NOT_YET = {
 }
 
@@ -170,6 +185,10 @@ def main():
             "add_only": True,
         },
         "engines": [
+            {"name": "argkey", "path": "harness/check_argkey.py", "serves_properties": ["C04"],
+             "kind_free_text": "spec/ArgKey.tla + JsonText.tla + ArgKeyMon, argkey_worker.py"},
+            {"name": "codec", "path": "harness/check_codec.py", "serves_properties": ["C11"],
+             "kind_free_text": "spec/Codec.tla + CodecMon, codec_worker.py"},
             {"name": "version", "path": "harness/check_version.py", "serves_properties": ["C01", "C03", "C13", "C14"],
              "kind_free_text": "spec/Version.tla + VersionMon/ClosureMon, program generator harness/vprogs.py, multi-process driver ver_worker.py/ver_child.py"},
             {"name": "runner", "path": "harness/check_runner.py", "serves_properties": ["C02", "C10", "C15", "C16"],
